@@ -125,6 +125,6 @@ Proof.
                     destruct (N.eqb_spec id i) as [->|];
                     [ do 5 right; exists c, rq; split; [first [exact E|reflexivity]|reflexivity]
                     | left; exact Hl ] end].
-  Show.
+  all: try solve [left; match goal with F : sess _ = sess _ |- _ => rewrite F end; exact Hl].
 Qed.
 
